@@ -12,6 +12,7 @@ EXPLANATION = ('Static rules on debounce, throttle, sample and the buffers: R-a 
                'complete() flushes the pending content before completing; R-d timer tasks move the pending content out with take(), never '
                'clone it. Registration of the task handles is C02.U1. R-e debounce protocol (provenance dataflow): every item replaces the parked one, cancels the timer of its predecessor and arms a new one with the configured delay, whose handle is kept; R-f throttle protocol: an item goes out on the leading edge only together with opening a window, the item that went out is not also kept for the trailing edge, inside a window the newest item is parked, the window timer is armed with the selector\'s duration for that item and its handle kept. Does not decide '
                'order under same-instant events.')
+TECHNIQUE = 'static analysis: linear item-flow rules and path-sensitive provenance dataflow (protocol of debounce/throttle) over MIR event graphs (custom rustc_private driver)'
 ASSUMPTIONS = ['bool configuration fields that next() never writes have one value along a path (correlated branches are pruned)']
 
 # observers that park items in a pending cell until a boundary; the cell itself is found by its type (see pending_field)
